@@ -146,7 +146,10 @@ def parseHamiltonian (H : HamSpec) (nDt : Nat) (pre : String) : Except Err HamPa
       match parseOperators (items.map (·.effOper)) with
       | .error e => .error e
       | .ok shape =>
-        if items.any (fun it => it.effCoeff == .noLen) then .error .typeError
+        -- `if parsed_opers.ndim != 3: raise ValueError` (d row vectors of length d, 1-d
+        -- operators and squeezed 1×1 arrays stack to a "square" array of fewer axes)
+        if shape.length != 3 then .error .valueError
+        else if items.any (fun it => it.effCoeff == .noLen) then .error .typeError
         else if decide (maxFields items ≥ 3) && Pulse.hasDup (filledIds items pre) then
           .error .valueError
         else if !(items.all fun it => it.effCoeff == .seq nDt) then .error .valueError
@@ -369,11 +372,16 @@ def relevantOmegas (pulses : List CPulse) (f : CPulse → Option Nat) : List (Op
   if pulses.any (·.cmCached) then (pulses.filter (·.cmCached)).map f
   else (pulses.filter (·.omegaBytes.isSome)).map f
 
+/-- the shortcut of `concatenate` for exactly one entry when nothing has to be computed
+(`len(pulses) == 1 and not calc_filter_function and not calc_pulse_correlation_FF`) -/
+def concatShortcut (pulses : List CPulse) (o : ConcatOpts) : Bool :=
+  pulses.length == 1 && !(o.calcFF == some true) && !o.calcPc
+
 /-- the checks of `concatenate(pulses, calc_pulse_correlation_FF, calc_filter_function, omega=…)`
 up to the point where the filter function is computed (the option `which` is checked by the
 decorator, `optionsOk`) -/
 def concatChecks (pulses : List CPulse) (o : ConcatOpts) : Except Err Unit :=
-  if pulses.length == 1 then .ok ()     -- `return copy.deepcopy(pulses[0])`, nothing is checked
+  if concatShortcut pulses o then .ok ()     -- `return copy.deepcopy(pulses[0])`, nothing is checked
   else
     match concatWithoutFFChecks pulses with
     | .error e => .error e
